@@ -264,7 +264,7 @@ fn check_mul(c: &MulCase, st: &mut Stats) -> CheckResult {
 // ----------------------------------------------------------------------
 // eval_poly
 
-#[derive(Clone, Debug, Serialize, Deserialize)]
+#[derive(Clone, Debug, PartialEq, Eq, Hash, Serialize, Deserialize)]
 pub struct EvalPolyCase {
     /// 0 sparse, 1 dense prefix, 2 decoder-shaped (high), 3 decoder-shaped (low), 4 random density
     pub shape: u8,
